@@ -36,6 +36,8 @@ type Solver struct {
 	defined map[*Term]bool
 	declUF  map[string]bool
 	dead    bool
+	nlsat   bool // domain X: try z3's nlsat tactic first (the incremental core rarely decides NRA)
+	nNlsat  int
 }
 
 func StartSolver(kind SolverKind, timeoutMs int, logw io.Writer) (*Solver, error) {
@@ -239,8 +241,42 @@ func (s *Solver) Check(ctx *TermCtx, extra *Term, keep bool) SatResult {
 		s.send("(assert " + r + ")")
 	}
 	t0 := time.Now()
-	s.send("(check-sat)")
 	res := Unknown
+	if s.nlsat && s.kind != SolverCVC5 {
+		s.send(fmt.Sprintf("(check-sat-using (try-for qfnra-nlsat %d))", s.timeoutMs))
+		line := s.readLine()
+		for line != "sat" && line != "unsat" && line != "unknown" && line != "timeout" && !strings.HasPrefix(line, "(error") && !s.dead {
+			line = s.readLine()
+		}
+		if line == "sat" || line == "unsat" {
+			s.nNlsat++
+			if line == "sat" {
+				res = Sat
+			} else {
+				res = Unsat
+			}
+			s.solveTime += time.Since(t0)
+			if res == Sat {
+				s.nSat++
+			} else {
+				s.nUnsat++
+			}
+			if !(keep && res == Sat) {
+				s.send("(pop 1)")
+			}
+			return res
+		}
+		if strings.HasPrefix(line, "(error") && strings.Count(line, "(") > strings.Count(line, ")") {
+			// multi-line error: swallow the rest
+			for !s.dead {
+				l2 := s.readLine()
+				if strings.HasSuffix(l2, ")") {
+					break
+				}
+			}
+		}
+	}
+	s.send("(check-sat)")
 	for {
 		line := s.readLine()
 		if line == "sat" {
